@@ -26,6 +26,8 @@ func isBoolVisitorType(t types.Type) bool {
 
 func checkC08(c *Ctx) {
 	l := c.L
+	checkSnapshotFlags(c, "FLOW-snapshot-flags")
+	checkIteratorAccessorsPure(c, "PURE-iterator-accessors")
 	c.rule("ORDER-stop-means-stop", "a true result of the visitor ends the iteration", 7)
 	c.rule("OWN-valid-flag", "validity flag set to true only at construction", 3)
 	c.rule("ERR-E5-sticky", "iterator errors are surfaced", 5)
@@ -1164,5 +1166,107 @@ func checkIndexReaders(c *Ctx) {
 	}
 	if n < 2 {
 		c.anchorMissing(R, "fewer than 2 readers of the fast index")
+	}
+}
+
+// checkIteratorAccessorsPure (shared by C08, C18): Key / Value of every
+// iterator type are observers: they do not write the iterator's fields
+// (Valid may latch an invalid state; it hands out no memory).  An accessor that fills an iterator-owned scratch buffer
+// and returns it hands out memory that its next call — or the wrapped
+// cursor's advance — rewrites: the merge of index and overlay keeps the
+// current value while it advances the storage cursor, and yields the NEXT
+// element's value.
+func checkIteratorAccessorsPure(c *Ctx, rule string) {
+	l := c.L
+	c.rule(rule, "the accessors that hand out memory (Key, Value) do not write the iterator", 10)
+	n := 0
+	for _, fn := range l.SrcFuncs {
+		if !l.inModule(fn) || fn.Signature.Recv() == nil || len(fn.Params) == 0 {
+			continue
+		}
+		switch fn.Name() {
+		case "Key", "Value":
+		default:
+			continue
+		}
+		// the receiver type is an iterator: it has Next and Valid
+		rt := fn.Signature.Recv().Type()
+		ms := l.Prog.MethodSets.MethodSet(rt)
+		if ms.Lookup(fn.Pkg.Pkg, "Next") == nil && ms.Lookup(nil, "Next") == nil {
+			continue
+		}
+		if ms.Lookup(fn.Pkg.Pkg, "Valid") == nil && ms.Lookup(nil, "Valid") == nil {
+			continue
+		}
+		n++
+		recv := fn.Params[0]
+		var bad ssa.Instruction
+		allInstrs(fn, func(in ssa.Instruction) {
+			if st, ok := in.(*ssa.Store); ok {
+				if fa, ok := st.Addr.(*ssa.FieldAddr); ok && stripTrivial(fa.X) == ssa.Value(recv) && bad == nil {
+					bad = in
+				}
+			}
+		})
+		if bad == nil {
+			c.ok(rule, l.fname(fn)+" is an observer", l.pos(fn.Pos()), "no store into the receiver")
+		} else {
+			c.bad(rule, l.fname(fn)+" is an observer", l.ipos(bad), "an iterator accessor writes a field of the iterator (e.g. a scratch buffer it then returns): what it handed out earlier changes under the caller when the accessor is called again or the cursor advances")
+		}
+	}
+	if n < 10 {
+		c.anchorMissing(rule, fmt.Sprintf("only %d iterator accessors found", n))
+	}
+}
+
+// checkSnapshotFlags (shared by C08, C07, C01): every ImmutableTree that the
+// library builds around a nodeDB carries the tree's skipFastStorageUpgrade
+// setting — in the literal, or set by every caller of the function that builds
+// it.  A snapshot without it reads the persisted index although this session
+// does not maintain it.
+func checkSnapshotFlags(c *Ctx, rule string) {
+	l := c.L
+	c.rule(rule, "every ImmutableTree built around a nodeDB carries skipFastStorageUpgrade", 4)
+	it := l.NamedType("", "ImmutableTree")
+	fSkip := l.Field("", "ImmutableTree", "skipFastStorageUpgrade")
+	if it == nil || fSkip == nil {
+		c.anchorMissing(rule, "ImmutableTree.skipFastStorageUpgrade")
+		return
+	}
+	n := 0
+	for _, fn := range l.SrcFuncs {
+		if l.pkgPathOf(fn) != l.ModPath {
+			continue
+		}
+		for _, m := range structLiteralStores(fn, it) {
+			if _, hasNdb := m["ndb"]; !hasNdb {
+				continue
+			}
+			n++
+			key := l.fname(fn) + " builds an ImmutableTree"
+			if _, has := m["skipFastStorageUpgrade"]; has || len(storesToField(fn, fSkip)) > 0 {
+				c.ok(rule, key, l.pos(fn.Pos()), "the flag is set in the building function")
+				continue
+			}
+			// every caller sets it on the result
+			edges := l.callersOf(fn)
+			ok := len(edges) > 0
+			where := l.pos(fn.Pos())
+			for _, e := range edges {
+				if e.Caller.Func == nil || e.Site == nil {
+					ok = false
+					continue
+				}
+				if len(storesToField(e.Caller.Func, fSkip)) == 0 {
+					ok = false
+					where = l.ipos(e.Site)
+				}
+			}
+			c.decide(rule, key, where, ok, "every caller sets the flag on the result",
+				"an ImmutableTree is built around the nodeDB without the skipFastStorageUpgrade setting (neither in the literal nor by every caller): with the setting on, its Get / Iterator read a persisted index that this session does not maintain")
+		}
+	}
+	if n < 4 {
+		c.anchorMissing(rule, "fewer than 4 ImmutableTree literals with a nodeDB")
 	}
 }
